@@ -1,8 +1,167 @@
+import Corro.Model.LocalTx
 import Driver.Util
-/-! Driver stub for C07: not built yet. -/
+import Driver.CrdtFmt
+/-!
+Driver for C07 (local write path of one node).  Ops:
+  cfg <limit>                        byte limit of a broadcast chunk (read from the real constant by the harness)
+  tx <stmt>;<stmt>;…                 one request; stmt = write mini-language | bad | badparam | missing ; `-` = no statement
+  txt <secs> <stmt>;…                the same with `?timeout=<secs>`; additionally `slow` (a statement that outlives the timeout)
+  txbig <n> <base> <len>             one request inserting rows `base .. base+n-1` into `t` (a = <len> bytes, b = index)
+  conc <k> <tx>|<tx>|…               k requests issued concurrently (row-disjoint, so every serialisation gives the same set)
+  state                              own need / head / db version / announced versions / store dump
+-/
 namespace Driver.C07
-abbrev State := Unit
-def init : State := ()
-def step (st : State) (_toks : List String) : Option (State × String) := some (st, "bad-op")
+open Corro Corro.Crdt Corro.Node Corro.LocalTx Driver Driver.CrdtFmt
+
+structure State where
+  n : LNode := LNode.fresh 0
+  limit : Nat := 8192
+
+def init : State := {}
+
+/-! ### `Change::estimated_byte_size` on the token form -/
+
+def bytesNeeded (n : Nat) : Nat :=
+  if n = 0 then 0 else if n < 256 then 1 else if n < 65536 then 2 else if n < 16777216 then 3
+  else if n < 4294967296 then 4 else if n < 1099511627776 then 5 else if n < 281474976710656 then 6
+  else if n < 72057594037927936 then 7 else 8
+
+/-- packed length of one primary-key column (cr-sqlite's `pack_columns`) -/
+def packedLen : Val → Nat
+  | .null => 1
+  | .int i => 1 + (if i < 0 then 8 else bytesNeeded i.toNat)
+  | .text b => 1 + bytesNeeded b.length + b.length
+  | .blob b => 1 + bytesNeeded b.length + b.length
+
+def pkLen (pk : String) : Nat :=
+  1 + ((pk.splitOn "+").map fun t => match parseVal t with | some v => packedLen v | none => 0).foldl (· + ·) 0
+
+def valSize : Val → Nat
+  | .null => 2
+  | .int _ => 9
+  | .text b => 5 + b.length
+  | .blob b => 5 + b.length
+
+def estSize (c : Chg) : Nat :=
+  c.tbl.utf8ByteSize + pkLen c.pk + c.cid.utf8ByteSize + valSize c.val + 56
+
+def cfgOf (st : State) : Cfg := { size := estSize, lim := fun _ => st.limit }
+
+/-! ### printing -/
+
+def fnv (s : String) : UInt64 :=
+  s.toUTF8.foldl (fun h b => (h ^^^ b.toUInt64) * 0x100000001b3) 0xcbf29ce484222325
+
+def hex64 (x : UInt64) : String :=
+  String.join ((List.range 8).reverse.map fun i => hexOf ((x >>> (8 * i).toUInt64).toNat % 256))
+
+/-- long fields are compared by digest -/
+def clip (s : String) : String :=
+  if s.length > 3000 then s!"fnv:{hex64 (fnv s)}:{s.length}" else s
+
+/-- `0-3,5,7-8` -/
+def showRuns (xs : List Nat) : String :=
+  let runs := xs.foldl (fun (acc : List (Nat × Nat)) x =>
+    match acc with
+    | (a, b) :: t => if x = b + 1 then (a, x) :: t else (x, x) :: (a, b) :: t
+    | [] => [(x, x)]) []
+  showList (runs.reverse.map fun r => if r.1 = r.2 then toString r.1 else s!"{r.1}-{r.2}")
+
+def showMsg (m : Msg) : String := s!"{m.lo}-{m.hi}/{m.last}:{showRuns (m.changes.map (·.seq))}"
+
+def showMsgs (ms : List Msg) : String := showList (ms.map showMsg) ";"
+
+def showChgMasked (c : Chg) : String :=
+  s!"{c.tbl}/{c.pk}/{c.cid}={showVal c.val}@{c.colv}.{c.cl}.{c.site}.*.{c.seq}"
+
+/-- `CrdtFmt.dump` with the version of every clock entry masked: which of several concurrent requests
+got which version is up to the scheduler (the versions themselves are compared on every `tx`) -/
+def dumpMasked (db : Db) : String :=
+  let chs := sortBy keyLt db.changes
+  let rowsOf (tbl : String) : List String :=
+    match tableCols tbl with
+    | none => []
+    | some cols =>
+      sortBy (fun (a b : String) => a < b) <|
+        (db.rows.filter (fun r => r.tbl = tbl ∧ r.cl % 2 = 1)).map fun r =>
+          let vals := cols.map fun c => match r.findCell c with | some x => showVal x.val | none => "n"
+          s!"{tbl}/{r.pk}:" ++ ",".intercalate vals
+  let rows := rowsOf "k" ++ rowsOf "t" ++ rowsOf "u"
+  showList (chs.map showChgMasked) ";" ++ " | " ++ showList rows ";"
+
+def showErr : ErrKind → Option String
+  | .empty => some "err empty"
+  | .constraint => some "err constraint"
+  | .badOp => none
+  | .injected .syntax => some "err syntax"
+  | .injected .params => some "err params"
+  | .injected .noTable => some "err no-table"
+  | .injected .timeout => some "err timeout"
+
+def showResp : Response → Option String
+  | .ack v chs msgs => some s!"ok v={v} bc={clip (showMsgs msgs)} ch={clip (showChgs chs)}"
+  | .noop => some "ok none"
+  | .err e => showErr e
+
+def showRespMasked : Response → Option String
+  | .ack _ chs msgs => some s!"ok bc={clip (showMsgs msgs)} ch={clip (showList (chs.map showChgMasked) ";")}"
+  | .noop => some "ok none"
+  | .err e => showErr e
+
+/-! ### parsing -/
+
+def parseRStmt (allowSlow : Bool) (s : String) : Option RStmt :=
+  if s = "bad" then some (.fail .syntax)
+  else if s = "badparam" then some (.fail .params)
+  else if s = "missing" then some (.fail .noTable)
+  else if s = "slow" then (if allowSlow then some (.fail .timeout) else none)
+  else (parseStmt s).map RStmt.sql
+
+def parseReq (allowSlow : Bool) (s : String) : Option Request :=
+  if s = "-" then some [] else (s.splitOn ";").mapM (parseRStmt allowSlow)
+
+def bigReq (n base len : Nat) : Request :=
+  (List.range n).map fun j =>
+    .sql (.ins "t" s!"i{base + j}" [("a", .text (List.replicate len 0x61)), ("b", .int j)])
+
+def step (st : State) (toks : List String) : Option (State × String) :=
+  match toks with
+  | ["cfg", l] => do
+    let l ← l.toNat?
+    pure ({ st with limit := l }, s!"limit={l}")
+  | ["tx", stmts] => do
+    let req ← parseReq false stmts
+    let (n', r) := submit (cfgOf st) st.n req
+    let o ← showResp r
+    pure ({ st with n := n' }, o)
+  | ["txt", secs, stmts] => do
+    let secs ← secs.toNat?
+    if secs = 0 then none else
+    let req ← parseReq true stmts
+    let (n', r) := submit (cfgOf st) st.n req
+    let o ← showResp r
+    pure ({ st with n := n' }, o)
+  | ["txbig", n, base, len] => do
+    let n ← n.toNat?; let base ← base.toNat?; let len ← len.toNat?
+    if n = 0 ∨ n > 4000 ∨ len > 2000 then none else
+    let (n', r) := submit (cfgOf st) st.n (bigReq n base len)
+    let o ← showResp r
+    pure ({ st with n := n' }, o)
+  | ["conc", k, txs] => do
+    let k ← k.toNat?
+    let reqs ← (txs.splitOn "|").mapM (parseReq false)
+    if reqs.length ≠ k ∨ k = 0 then none else
+    let before := st.n.node.db.dbv
+    let (n', rs) := run (cfgOf st) st.n reqs
+    let outs ← rs.mapM showRespMasked
+    let acks := (ackedVersions rs).length
+    let block := if acks = 0 then "-" else s!"{before + 1}-{before + acks}"
+    pure ({ st with n := n' },
+      s!"acks={acks} block={block} results={" & ".intercalate (sortBy (fun (a b : String) => a < b) outs)}")
+  | ["state"] =>
+    let own := st.n.own
+    some (st, s!"need={showRanges own.needed} head={own.max} dbv={st.n.node.db.dbv} announced={showNats (st.n.outbox.map (·.1))} stray=0 dump={clip (dumpMasked st.n.node.db)}")
+  | _ => none
+
 end Driver.C07
 def main : IO Unit := Driver.runLoop Driver.C07.init Driver.C07.step
